@@ -319,7 +319,7 @@ func staleP256() *ecdh.PrivateKey {
 }
 
 func runReal(env *realEnv, sc realScen, r *mrand.Rand, w *ndWriter, pw *ndWriter, idx int) {
-	const public = "public.example.com"
+	const public = "Public-K.example.com" // names are compared as the client sent them
 	inner := realName(r, sc.NameLen)
 	target := env.config("k1", 7, sc.Suite, public)
 	var keys []ech.Key
